@@ -58,18 +58,28 @@ Definition sys_params (root task index ns : nat) (notify : option nat) : dict :=
 Definition sys_keys : list string := ["root_execution_id"; "task_execution_id"; "index"; "namespace"; "notify"].
 
 (* for k, v in list(input_dict.items()):
-       if k not in wf_spec.get_input(): wf_params[k] = v; del input_dict[k]          *)
-Fixpoint split_loop (declared : list string) (items input params : dict) : dict * dict :=
+       if k not in wf_spec.get_input():
+           if k in wf_params: raise InputException(...)     (reserved name: the calling task fails)
+           wf_params[k] = v; del input_dict[k]
+   None = the InputException (nothing is started) *)
+Fixpoint split_loop (declared : list string) (items input params : dict) : option (dict * dict) :=
   match items with
-  | [] => (input, params)
+  | [] => Some (input, params)
   | (k, v) :: t =>
     if mem_key k declared then split_loop declared t input params
-    else split_loop declared t (dremove k input) (dset k v params)
+    else match lookup k params with
+         | Some _ => None
+         | None => split_loop declared t (dremove k input) (dset k v params)
+         end
   end.
 
-(* returns (input passed to the child, params passed to the child) *)
-Definition param_split (declared : list string) (input sys : dict) : dict * dict :=
+(* returns (input passed to the child, params passed to the child), or None = refused *)
+Definition param_split (declared : list string) (input sys : dict) : option (dict * dict) :=
   split_loop declared input input sys.
+
+(* printer for the correspondence suite *)
+Definition show_split (r : option (dict * dict)) : bool * (dict * dict) :=
+  match r with Some p => (true, p) | None => (false, ([], [])) end.
 
 (* ------------------------------------------------------------------ *)
 (* resolve_workflow_definition                                          *)
